@@ -1,3 +1,4 @@
+import operator
 import random
 
 import numpy as np
@@ -47,6 +48,7 @@ def random_rule_table(k, r, lambda_val=None, quiescent_state=None, strong_quiesc
     :return: a tuple containing: a table describing a rule, constructed using the "random-table" table method as
              described by C. G. Langton, the actual lambda value, and the quiescent state used
     """
+    k, r = operator.index(k), operator.index(r)
     states = []
     n = 2*r + 1
     for i in range(0, k**n):
@@ -113,6 +115,8 @@ def table_walk_through(rule_table, lambda_val, k, r, quiescent_state, strong_qui
     :return: a tuple containing: a table describing a rule, constructed using the "table-walk-through" method as
              described by C. G. Langton, the actual lambda value
     """
+    k, r = operator.index(k), operator.index(r)
+
     def actual_lambda():
         n = 2*r + 1
         transitions_to_quiescent_state = list(rule_table.values()).count(quiescent_state)
